@@ -20,7 +20,7 @@ from synapgrad import nn
 from synapgrad.nn.modules import Module, Parameter, Sequential
 FIRST = %(first)r
 MAXLEN = %(maxlen)d
-NACT = 33
+NACT = 34
 
 
 class M(Module):
@@ -207,6 +207,12 @@ def %(name)s(rest: List[int]) -> bool:
             except AttributeError:
                 pass
             _assign(reg, 0, "a", None)
+        elif a == 33:            # a name the module machinery uses itself ('training'): registering a submodule under it must be
+            try:                 # refused - accepted, the next train()/eval() would overwrite (and so un-register) the submodule
+                mods[0].register_module("training", mods[1])
+                ok = False
+            except (KeyError, ValueError, TypeError, AttributeError):
+                pass
         else:                    # a module diamond: m2 is reachable from m0 directly and (after action 27) through m1 as well
             mods[0].c = mods[2]; _assign(reg, 0, "c", ("m", 2))
         ok = ok and _check(mods, pars, reg, training, req, gstate)
@@ -276,7 +282,7 @@ def main(tier, seed):
     # multiplies that by 33 and no longer finishes, so the thorough tier gives *every* first action 2 symbolic followers
     maxlen = 2
     files = []
-    for first in range(33):
+    for first in range(34):
         name = "h_p%d" % first
         # quick: every history of length <= 2, and length <= 3 behind the (re-)registration actions
         ml = maxlen if (tier != "quick" or first in (2, 3, 13, 27, 32)) else 1
@@ -299,7 +305,7 @@ def main(tier, seed):
     with ThreadPoolExecutor(max_workers=procs) as ex:
         results = list(ex.map(job, files))
     return c07.finish(PROP, tier, seed, results, t0, {
-        "universe": "3 modules (two levels of nesting, plus a diamond), 2 parameters (sizes 1, 2), attribute names a/b/c; 33 concrete actions (assign "
+        "universe": "3 modules (two levels of nesting, plus a diamond), 2 parameters (sizes 1, 2), attribute names a/b/c; 34 concrete actions (incl. registration under the reserved name 'training') (assign "
                     "parameter / submodule / None / int, delete, register_parameter/module, train/eval, freeze/unfreeze, zero_grad, set a gradient)",
         "history": "first action fixed per partition + symbolic followers: quick 1 everywhere and 2 behind five (re-)registration "
                    "actions; thorough 2 behind every first action (a third follower does not finish: ~33 x 1100 paths per partition)",
